@@ -290,7 +290,8 @@ class Model:
 
     # ---- CAP after registration: capability changes only, never an effect on the session's fate
     def do_cap(self, cid, cmd):
-        e = Exp("CAP", ("C06", "C04", "C03"))
+        e = Exp("CAP", ("C06", "C04", "C03", "C02"))
+        e.only = set()  # capability replies are CAP lines; no numeric is due for a registered client
         sub = cmd["sub"]
         if sub == "REQ":
             if cmd.get("caps") == ["multi-prefix"]:
